@@ -177,3 +177,32 @@ def shadowed_alternatives(group_seq, follow_seq):
         out.append((clash, av))
       break
   return out
+
+
+def prefix_shadowed(seq, follow=()):
+  """[(shorter, longer)] for ordered alternations in which an earlier alternative matches a proper prefix of what a later one matches,
+  while everything after the alternation can match the empty string and the pattern is not anchored at its end: a match attempt
+  (`re.match`, which need not consume the whole text) then succeeds with the shorter alternative and never tries the longer one -
+  "13" is read as "1" and "3" is left over.  Only alternatives with small finite languages are compared."""
+  out = []
+  seq = list(seq)
+  for j, (op, av) in enumerate(seq):
+    rest = seq[j + 1:] + list(follow)
+    if op is C.BRANCH:
+      anchored = any(o is C.AT and a in (C.AT_END, C.AT_END_STRING) for o, a in rest)
+      if not anchored and first(rest)[1]:
+        langs = [language(alt, limit=200) for alt in av[1]]
+        for k, la in enumerate(langs):
+          for lb in langs[k + 1:]:
+            if la is None or lb is None:
+              continue
+            hit = next(((a, b) for a in sorted(la) for b in sorted(lb) if a and len(a) < len(b) and b.startswith(a)), None)
+            if hit:
+              out.append(hit)
+      for alt in av[1]:
+        out.extend(prefix_shadowed(alt, rest))
+    elif op is C.SUBPATTERN:
+      out.extend(prefix_shadowed(av[3], rest))
+    elif op in (C.MAX_REPEAT, C.MIN_REPEAT):
+      out.extend(prefix_shadowed(av[2], rest))
+  return out
